@@ -84,7 +84,8 @@ def handleDataOps (op : String) (j : Json) : Except String Json := do
   match op with
   | "dataops.run" => do
       let fr ← getArr j "fresh"
-      let env ← fr.toList.mapM namedRowsOfJ
+      let envL ← fr.toList.mapM namedRowsOfJ
+      let env : Env := fun n => Dict.get envL n
       let opsJ ← getArr j "ops"
       let ops ← opsJ.toList.mapM opOfJ
       let tr := traceOps env {} ops
